@@ -11,6 +11,7 @@
 #include "nmtools/utl/tuple.hpp"
 #include "nmtools/meta/loop.hpp"
 #include "nmtools/meta/bits/transform/common_type.hpp"
+#include "nmtools/verif.hpp"
 
 // To make this file include-able but errored when used
 // TODO: better handling for no-malloc build
@@ -242,11 +243,13 @@ namespace nmtools::utl
         reference at(size_type i)
         {
             // TODO: assert/throw
+            NMTOOLS_VERIF_EVENT(verif::bounds(verif::VEC_AT,(long long)i,(long long)size_));
             return buffer_[i];
         }
 
         const_reference at(size_type i) const
         {
+            NMTOOLS_VERIF_EVENT(verif::bounds(verif::VEC_AT,(long long)i,(long long)size_));
             return buffer_[i];
         }
 
@@ -257,11 +260,13 @@ namespace nmtools::utl
 
         reference operator[](size_type i) noexcept
         {
+            NMTOOLS_VERIF_EVENT(verif::bounds(verif::VEC_AT,(long long)i,(long long)size_));
             return buffer_[i];
         }
 
         const_reference operator[](size_type i) const noexcept
         {
+            NMTOOLS_VERIF_EVENT(verif::bounds(verif::VEC_AT,(long long)i,(long long)size_));
             return buffer_[i];
         }
 
